@@ -239,7 +239,6 @@ func expandPredicateLiterals(fn *ssa.Function, lits []string, calls map[string]*
 	return out
 }
 
-
 // effectFree: no stores to the heap, map updates, sends, go/defer or panics.
 func effectFree(g *ssa.Function) bool {
 	ok := true
